@@ -35,32 +35,34 @@ class FeedbackFieldWrapper:
         formatter (Formatter): The formatter to use from the report.
     """
     def __init__(self, key, value, formatter):
-        self.key = key
-        self.value = value
-        self.formatter = formatter
+        # Private names, so that ``{field.key}`` or ``{field.value}`` in a
+        # template reach the attributes of the field's own value
+        self._field_key = key
+        self._field_value = value
+        self._field_formatter = formatter
 
     def __getattr__(self, key):
-        return FeedbackFieldWrapper(self.key, getattr(self.value, key), self.formatter)
+        return FeedbackFieldWrapper(self._field_key, getattr(self._field_value, key), self._field_formatter)
 
     def __getitem__(self, index):
-        return FeedbackFieldWrapper(self.key, self.value[index], self.formatter)
+        return FeedbackFieldWrapper(self._field_key, self._field_value[index], self._field_formatter)
 
     def __repr__(self):
-        return repr(self.value)
+        return repr(self._field_value)
 
     def __str__(self):
-        return str(self.value)
+        return str(self._field_value)
 
     def __format__(self, format_spec):
         try:
-            value = str(self.value)
+            value = str(self._field_value)
         except Exception:
             # A value that cannot describe itself must not lose the feedback
-            value = safe_repr(self.value)
-        for formatter_name in self.formatter.available:
+            value = safe_repr(self._field_value)
+        for formatter_name in self._field_formatter.available:
             if format_spec.endswith(formatter_name):
                 format_spec = chomp_spec(format_spec, formatter_name)
-                value = getattr(self.formatter, formatter_name)(self.value)
+                value = getattr(self._field_formatter, formatter_name)(self._field_value)
                 break
         return value.__format__(format_spec)
 
